@@ -1524,3 +1524,139 @@ func ruleDocstringQuotePadding(c *core.Ctx) {
 		c.Check(good, rule, key, hit.Pos, "padded under `"+w.test+"` alone", "the padding is applied only under `"+strings.Join(hit.Guards, " ∧ ")+"`: for the other comments with a "+strings.Fields(w.key)[0]+" double quote the closing delimiter becomes `\"\"\"\"` (SyntaxError: unterminated string literal in the generated module)")
 	}
 }
+
+// V8: a rewriter callback that keeps a node also keeps rewriting below it. In a function literal handed to dsl.Rewrite /
+// dsl.RewriteWithContext, a case for a node kind that has Node-typed children may return only what self.DefaultRewrite
+// produced (directly or stored in a local first), unless the exit is an audited prune: returning the node — or a
+// shallow clone of it — as it is stops the rewrite for the whole subtree (comments, unresolved references, ... stay).
+func ruleRewriterDescends(scopeFiles func(string) bool, ruleID string, min int) func(c *core.Ctx) {
+	return func(c *core.Ctx) {
+		c.Rule(ruleID, "every return of a Rewrite callback, in a case for a node kind that has Node children, returns the result of self.DefaultRewrite(...) (audited prunes excepted)", min)
+		dslp := c.Pkg("pkg/dsl")
+		nodeIface := dslp.Types.Scope().Lookup("Node").Type().Underlying().(*types.Interface)
+		for _, d := range c.AllDecls() {
+			if d.Body == nil || !scopeFiles(c.Fset.Position(d.Pos()).Filename) {
+				continue
+			}
+			info := c.DeclPkg(d).TypesInfo
+			ast.Inspect(d.Body, func(n ast.Node) bool {
+				ce, ok := n.(*ast.CallExpr)
+				if !ok {
+					return true
+				}
+				f := core.Callee(info, ce)
+				if f == nil || f.Pkg() == nil || f.Pkg().Path() != core.Mod+"/pkg/dsl" || !(f.Name() == "Rewrite" || f.Name() == "RewriteWithContext") || f.Type().(*types.Signature).Recv() != nil {
+					return true
+				}
+				for _, a := range ce.Args {
+					fl, ok := ast.Unparen(a).(*ast.FuncLit)
+					if !ok || len(fl.Type.Params.List) < 2 {
+						continue
+					}
+					var params []types.Object
+					for _, fld := range fl.Type.Params.List {
+						for _, nm := range fld.Names {
+							params = append(params, info.Defs[nm])
+						}
+					}
+					if len(params) < 2 {
+						continue
+					}
+					self, node := params[0], params[1]
+					// locals that hold a DefaultRewrite result
+					isDescent := func(e ast.Expr) bool {
+						found := false
+						ast.Inspect(e, func(x ast.Node) bool {
+							if c2, ok := x.(*ast.CallExpr); ok {
+								if sel, ok := ast.Unparen(c2.Fun).(*ast.SelectorExpr); ok && identObj(info, sel.X) == self && (sel.Sel.Name == "DefaultRewrite" || sel.Sel.Name == "Rewrite") {
+									found = true
+								}
+							}
+							return !found
+						})
+						return found
+					}
+					rewritten := map[types.Object]bool{}
+					ast.Inspect(fl.Body, func(x ast.Node) bool {
+						if as, ok := x.(*ast.AssignStmt); ok {
+							for i, l := range as.Lhs {
+								if i < len(as.Rhs) && isDescent(as.Rhs[i]) {
+									if o := identObj(info, l); o != nil {
+										rewritten[o] = true
+									}
+								} else if len(as.Rhs) == 1 && isDescent(as.Rhs[0]) {
+									if o := identObj(info, l); o != nil {
+										rewritten[o] = true
+									}
+								}
+							}
+						}
+						return true
+					})
+					for _, st := range fl.Body.List {
+						ts, ok := st.(*ast.TypeSwitchStmt)
+						if !ok {
+							continue
+						}
+						ti := parseTypeSwitch(info, ts)
+						if identObj(info, ti.subject) != node {
+							continue
+						}
+						for _, cs := range ti.cases {
+							var lbls []string
+							has := false
+							for _, t := range cs.types {
+								if t != nil {
+									lbls = append(lbls, typeLabel(t))
+									if hasNodeChildren(c, t, nodeIface) {
+										has = true
+									}
+								}
+							}
+							if !has {
+								continue
+							}
+							key := c.FuncName(d) + "/case " + strings.Join(lbls, ",")
+							var bad *ast.ReturnStmt
+							nret := 0
+							for _, b := range cs.body {
+								ast.Inspect(b, func(x ast.Node) bool {
+									if _, isLit := x.(*ast.FuncLit); isLit {
+										return false
+									}
+									r, ok := x.(*ast.ReturnStmt)
+									if !ok || len(r.Results) == 0 {
+										return true
+									}
+									nret++
+									res := r.Results[0]
+									if isDescent(res) || rewritten[identObj(info, res)] {
+										return true
+									}
+									if bad == nil {
+										bad = r
+									}
+									return true
+								})
+							}
+							if nret == 0 {
+								continue
+							}
+							if bad == nil {
+								c.OK(ruleID, key, cs.cc.Pos(), "every return goes through DefaultRewrite")
+							} else if r, ok := auditedRewriterPrunes[key]; ok {
+								c.OK(ruleID, key, cs.cc.Pos(), "audited: "+r)
+							} else {
+								c.Bad(ruleID, key, bad.Pos(), "this case returns `"+types.ExprString(bad.Results[0])+"` without rewriting the node's children: the rewrite stops at this node and everything below it is left as it was")
+							}
+						}
+					}
+				}
+				return true
+			})
+		}
+	}
+}
+
+// auditedRewriterPrunes: "<func>/case <T>" -> why the children need no rewriting there
+var auditedRewriterPrunes = map[string]string{}
